@@ -105,7 +105,7 @@ PROPS["C04"] = {
 PROPS["C05"] = {
     "lean_modules": ["StyluaModel.Props.C05"],
     "theorem_prefix": "C05_",
-    "required_theorems": ["C05_single", "C05_hang", "C05_tokens_determine_tree", "C05_parses_back"],
+    "required_theorems": ["C05_single", "C05_hang", "C05_tokens_determine_tree", "C05_parses_back", "C05_prec_table"],
     "hx": [["c05"]],
     "level": "proof",
     "level_text": "Proof: for the Lean model of check_excess_parentheses / format_expression_internal / hang_binop_expression / format_hanging_expression_ (all layout answers universally quantified as an oracle), every result is faithful, is read back as exactly itself by the Lean mirror of full_moon's precedence-climbing parser (proved: `faithful e -> parse (print e) = e`, any fuel) and has the same meaning as the input, on the single-line and on the hanging path, for expressions of any size. The model is tied to expression.rs by a correspondence over all depth-2 trees x 12 syntactic contexts x 3 width classes plus seeded deeper trees.",
@@ -324,7 +324,7 @@ PROPS["C14"] = {
 PROPS["C18"] = {
     "lean_modules": ["StyluaModel.Props.C18"],
     "theorem_prefix": "C18_",
-    "required_theorems": ["C18_json_partial", "C18_json", "C18_json_as_indexed", "C18_none_iff", "C18_ranges", "C18_unified", "C18_unified_none", "C18_unified_printed", "C18_header_roundtrip", "C18_unified_fixed", "C18_unified_pinned_violates"],
+    "required_theorems": ["C18_json_partial", "C18_json", "C18_json_as_indexed", "C18_none_iff", "C18_ranges", "C18_unified", "C18_unified_none", "C18_unified_printed", "C18_header_roundtrip", "C18_unified_fixed", "C18_unified_fix_conservative", "C18_unified_pinned_violates"],
     "py": [cli.c18],
     "needs_cli": True,
     "level": "proof",
